@@ -848,7 +848,7 @@ class UmEngine:
 		sim = w.sim
 		if log_points:
 			sim.point_log = []
-		toolkit.capture_logs(lambda lvl, fn, msg: sim.record("log", level=lvl, file=fn, msg=msg))
+		toolkit.capture_logs(lambda lvl, fn, msg: sim.record("log", level=lvl, file=fn, msg=msg), level=20)
 		w.init_error = None
 		stuck = []
 		try:
@@ -952,7 +952,7 @@ class UmEngine:
 		res = Result()
 		hostile = any(op.get("hostile") for op in plan["ops"])
 		mon = Monitor(plan["config"], hostile=hostile)
-		toolkit.capture_logs(lambda lvl, fn, msg: sim.record("log", level=lvl, file=fn, msg=msg))
+		toolkit.capture_logs(lambda lvl, fn, msg: sim.record("log", level=lvl, file=fn, msg=msg), level=20)
 		try:
 			try:
 				w.build()
